@@ -151,6 +151,17 @@ fn master_id(m: usize) -> String {
     format!("m{m}")
 }
 
+/// Optional spellings of the Glyphs 3 writer (all off by default = what `to_glyphs3` writes).
+#[derive(Debug, Clone, Default, PartialEq, Eq, serde::Serialize, serde::Deserialize)]
+pub struct G3Opts {
+    /// Write an intermediate ("brace") layer's `coordinates` (and the `{..}` of its name) without the
+    /// trailing axes on which the layer sits where its associated (host) master sits: in Glyphs an
+    /// axis that a brace layer does not list comes from the associated master. At least one
+    /// coordinate is always written (an empty list would not be a brace layer).
+    #[serde(default)]
+    pub brace_partial_coordinates: bool,
+}
+
 fn version_of(d: &Design) -> (Option<f64>, Option<f64>) {
     let mut major = None;
     let mut minor = None;
@@ -376,7 +387,25 @@ impl Design {
         GV::D(e)
     }
 
+    /// The coordinate list written for the brace layer of layer master `m` under `o`
+    /// (the full design location unless `o.brace_partial_coordinates` lets trailing axes go).
+    pub fn brace_coordinates(&self, m: usize, o: &G3Opts) -> Vec<f64> {
+        let loc = &self.masters[m].loc;
+        let mut keep = loc.len();
+        if let (true, MasterKind::LayerOf(h)) = (o.brace_partial_coordinates, &self.masters[m].kind) {
+            let host = &self.masters[*h].loc;
+            while keep > 1 && host.get(keep - 1) == Some(&loc[keep - 1]) {
+                keep -= 1;
+            }
+        }
+        loc[..keep].to_vec()
+    }
+
     fn g3_layer(&self, gi: usize, m: usize, l: &Layer) -> GV {
+        self.g3_layer_o(gi, m, l, &G3Opts::default())
+    }
+
+    fn g3_layer_o(&self, gi: usize, m: usize, l: &Layer, o: &G3Opts) -> GV {
         let mut e: Vec<(String, GV)> = vec![];
         if !l.anchors.is_empty() {
             e.push((
@@ -397,12 +426,13 @@ impl Design {
         match self.masters[m].kind {
             MasterKind::Full => e.push(("layerId".into(), GV::S(master_id(m)))),
             MasterKind::LayerOf(h) => {
+                let coords = self.brace_coordinates(m, o);
                 e.push(("associatedMasterId".into(), GV::S(master_id(h))));
                 e.push((
                     "attr".into(),
                     GV::D(vec![(
                         "coordinates".into(),
-                        GV::A(self.masters[m].loc.iter().map(|v| GV::N(*v)).collect()),
+                        GV::A(coords.iter().map(|v| GV::N(*v)).collect()),
                     )]),
                 ));
                 e.push(("layerId".into(), GV::S(format!("L{m}-{gi}"))));
@@ -410,7 +440,7 @@ impl Design {
                     "name".into(),
                     GV::S(format!(
                         "{{{}}}",
-                        self.masters[m].loc.iter().map(|v| num(*v)).collect::<Vec<_>>().join(", ")
+                        coords.iter().map(|v| num(*v)).collect::<Vec<_>>().join(", ")
                     )),
                 ));
             }
@@ -453,6 +483,10 @@ impl Design {
     }
 
     fn g3_glyph(&self, gi: usize) -> GV {
+        self.g3_glyph_o(gi, &G3Opts::default())
+    }
+
+    fn g3_glyph_o(&self, gi: usize, o: &G3Opts) -> GV {
         let g = &self.glyphs[gi];
         let mut e: Vec<(String, GV)> = vec![];
         e.extend(self.category_entries(g).into_iter().filter(|(k, _)| k == "category"));
@@ -469,7 +503,7 @@ impl Design {
         }
         e.push((
             "layers".into(),
-            GV::A(g.layers.iter().map(|(m, l)| self.g3_layer(gi, *m, l)).collect()),
+            GV::A(g.layers.iter().map(|(m, l)| self.g3_layer_o(gi, *m, l, o)).collect()),
         ));
         if let Some(p) = self.postscript_names.get(&g.name) {
             e.push(("production".into(), GV::s(p)));
@@ -491,6 +525,10 @@ impl Design {
 
     /// The top-level dictionary of the Glyphs 3 file, with or without the `glyphs` entry.
     fn g3_top(&self, with_glyphs: bool) -> GV {
+        self.g3_top_o(with_glyphs, &G3Opts::default())
+    }
+
+    fn g3_top_o(&self, with_glyphs: bool, o: &G3Opts) -> GV {
         let mut e: Vec<(String, GV)> = vec![
             (".appVersion".into(), GV::S("3300".into())),
             (".formatVersion".into(), GV::N(3.0)),
@@ -566,7 +604,7 @@ impl Design {
         if with_glyphs {
             e.push((
                 "glyphs".into(),
-                GV::A((0..self.glyphs.len()).map(|gi| self.g3_glyph(gi)).collect()),
+                GV::A((0..self.glyphs.len()).map(|gi| self.g3_glyph_o(gi, o)).collect()),
             ));
         }
         if !self.instances.is_empty() {
@@ -641,6 +679,19 @@ impl Design {
     /// The design as the text of a Glyphs 3 `.glyphs` file.
     pub fn to_glyphs3(&self) -> String {
         self.g3_top(true).to_text()
+    }
+
+    /// The design as the text of a Glyphs 3 `.glyphs` file, with optional spellings.
+    pub fn to_glyphs3_with(&self, o: &G3Opts) -> String {
+        self.g3_top_o(true, o).to_text()
+    }
+
+    /// Writes `<dir>/design.glyphs` (Glyphs 3) with optional spellings. Returns its path.
+    pub fn write_glyphs3_with(&self, dir: &Path, o: &G3Opts) -> std::io::Result<PathBuf> {
+        std::fs::create_dir_all(dir)?;
+        let p = dir.join("design.glyphs");
+        std::fs::write(&p, self.to_glyphs3_with(o))?;
+        Ok(p)
     }
 
     /// Writes `<dir>/design.glyphs` (Glyphs 3). Returns its path.
